@@ -22,8 +22,12 @@ import (
 // Scenario "c35", arg "<limit>:<pre>:<attempts>" with clients written <id><version>,
 // e.g. "1::b4+c5" (limit 1, nobody connected, b (v4) and c (v5) connect concurrently) or
 // "2:a5:a5+b4" (a is connected; a second connection with id a (takeover) races b).
-// Pre-established clients are connected one by one (sequentially, to quiescence); the
-// attempts are then started together and every interleaving of their handlers within the
+// Pre-established clients are connected one by one (sequentially, to quiescence); a
+// pre-client written <id><version>x then loses its connection (the peer drops it), one
+// written <id><version>d sends DISCONNECT: being persistent (v3/v4 clean=0, v5 Session
+// Expiry 60) its session stays known to the broker, offline, and holds no connection
+// ("1:a5x+b5:a5": a was connected and is offline, b is connected, a connects again while
+// the broker is full). The attempts are then started together and every interleaving of their handlers within the
 // deviation bound is executed. ClientsConnected / ClientsMaximum atomics are scheduling
 // points (world's default), so the window between the limit check and the counter update
 // in attachClient is explored.
@@ -39,11 +43,14 @@ import (
 //   unspecified (not judged): WHICH attempts are admitted, and refusals while fewer than
 //             <limit> connections are established (mochi counts a taken-over connection
 //             until its handler has exited).
+// An attempt under a client identifier whose session is known but offline replaces no
+// connection: it is an attempt like any other and is refused when the broker is full.
 // Classification of an excess admission: the hook events OnPacketRead(CONNECT) (before the
 // limit check) and OnSessionEstablish (after the counter update) delimit each attempt's
 // check-then-increment window. If, when the excess attempt's CONNECT was read, <limit>
 // established connections were already counted, the check itself is wrong
-// ("exceeded:admitted-while-full"); otherwise the attempt was admitted by the window
+// ("exceeded:admitted-while-full", with the suffix ":offline-session-id" when the attempt
+// used the identifier of an offline session); otherwise the attempt was admitted by the window
 // ("exceeded:check-then-increment").
 
 type c35Conn struct {
@@ -72,6 +79,7 @@ type c35Att struct {
 	ID   string
 	Ver  byte
 	Conn *world.Conn
+	Off  string // pre-clients only: "x" the peer drops the connection, "d" the client sends DISCONNECT
 }
 
 func c35ParseClients(s string) []c35Att {
@@ -80,7 +88,11 @@ func c35ParseClients(s string) []c35Att {
 		if f == "" {
 			continue
 		}
-		out = append(out, c35Att{ID: f[:len(f)-1], Ver: f[len(f)-1] - '0'})
+		off := ""
+		if l := f[len(f)-1]; l == 'x' || l == 'd' {
+			off, f = string(l), f[:len(f)-1]
+		}
+		out = append(out, c35Att{ID: f[:len(f)-1], Ver: f[len(f)-1] - '0', Off: off})
 	}
 	return out
 }
@@ -126,6 +138,14 @@ func c35Run(arg string) explore.RunFn {
 			all = append(all, &a)
 			open(&a)
 			w.Run()
+			switch a.Off {
+			case "x":
+				a.Conn.PeerClose()
+				w.Run()
+			case "d":
+				a.Conn.Send(ref.Encode(ref.Packet{Type: ref.DISCONNECT}, a.Ver, ref.EncOpts{}))
+				w.Run()
+			}
 		}
 		nPre := len(all)
 		for i := range atts {
@@ -173,6 +193,15 @@ func c35Monitor(w *world.World, limit int, all []*c35Att, nPre int, ctr map[stri
 			viol = append(viol, explore.Violation{Key: key, Msg: msg, Trace: trace})
 		}
 	}
+	// identifiers whose session is known to the broker but offline when the attempts start
+	offline := map[string]bool{}
+	idOf := map[int]string{}
+	for k, a := range all {
+		idOf[a.Conn.ID] = a.ID
+		if k < nPre {
+			offline[a.ID] = a.Off != ""
+		}
+	}
 	var tl []string
 	maxEst := 0
 	for _, e := range w.Events {
@@ -189,6 +218,9 @@ func c35Monitor(w *world.World, limit int, all []*c35Att, nPre int, ctr map[stri
 				}
 			}
 			fullAtRead[i] = k >= limit
+			if fullAtRead[i] && offline[idOf[i]] {
+				ctr["offline_session_attempts_while_full"]++
+			}
 			tl = append(tl, fmt.Sprintf("conn%d: CONNECT read (id %s), %d counted", i, e.Client, k))
 		case "OnSessionEstablish":
 			if e.ClientPtr != nil {
@@ -251,6 +283,9 @@ func c35Monitor(w *world.World, limit int, all []*c35Att, nPre int, ctr map[stri
 					key := "exceeded:check-then-increment"
 					if fullAtRead[i] {
 						key = "exceeded:admitted-while-full"
+						if offline[idOf[i]] {
+							key += ":offline-session-id"
+						}
 					}
 					add(key, fmt.Sprintf("limit %d: %d connections hold a success CONNACK and are open at the same time (conn%d admitted last)", limit, k, i), append([]string{}, tl...))
 				}
@@ -328,13 +363,17 @@ var c35Scen = []string{
 	"1::b5+c4+d5", "2::b4+c5+d5", "2:a5:a5+b4+c5",
 }
 
+// c35OfflineScen: attempts under the identifier of an offline persistent session.
+var c35OfflineScen = []string{"1:a5x+b5:a5", "1:a4d+b4:a4+c5", "2:a5x+b4:a5+c5"}
+var c35OfflineThorough = []string{"1:a5d+b4:a5", "1:a4x+b5:a4", "1:a3x+b4:a3+c4", "1:a5x:a5+b4", "2:a5x+b5d+c4:a5+b5", "2:a4x+b4+c5:a4+d5"}
+
 func init() {
 	explore.RegisterDFS("c35", c35Run)
 	explore.Register("C35", func(c *explore.Ctx) {
 		c.Rep.Level = "model_checking"
 		c.Rep.Assumption("threads are serialised by the cooperative scheduler (sequentially consistent interleavings only)")
 		c.Rep.Assumption("scheduling points include every atomic operation on Info.ClientsConnected / ClientsMaximum (the limit check and the counter update), locks, Once, WaitGroup, channel statements, goroutine starts and connection Read/Write/Close")
-		c.Rep.Assumption("a connection counts as established from the write completing CONNACK(0) until the broker closes it; clients never disconnect by themselves")
+		c.Rep.Assumption("a connection counts as established from the write completing CONNACK(0) until the broker closes it; clients never disconnect by themselves, except the pre-clients marked x (peer drops the connection) or d (DISCONNECT) which go offline, and are seen closed by the broker, before the attempts start")
 		bounds := []explore.Bounds{{Preempt: 0}, {Preempt: 1}, {Preempt: 2}}
 		per := 6 * time.Second
 		if !c.Quick() {
@@ -342,9 +381,18 @@ func init() {
 			per = 60 * time.Second
 		}
 		a := newDfsAgg(c)
+		a.run("c35", c35OfflineScen[0], bounds, per) // cheap and decisive: first
 		for _, s := range c35Scen {
 			a.run("c35", s, bounds, per)
 		}
-		a.requireCounters("executions_with_refusal", "executions_reaching_limit")
+		for _, s := range c35OfflineScen[1:] {
+			a.run("c35", s, bounds, per)
+		}
+		if !c.Quick() {
+			for _, s := range c35OfflineThorough {
+				a.run("c35", s, bounds, per)
+			}
+		}
+		a.requireCounters("executions_with_refusal", "executions_reaching_limit", "offline_session_attempts_while_full")
 	})
 }
